@@ -23,7 +23,7 @@ RULE = ("(a) systematic: 2..4 threads x 1..3 failing exec calls with unique path
         "threads uses raw futexes only (no happens-before edges from the harness) so that an unsynchronised access next to a "
         "switch point is reported deterministically; (b) stress: up to 64 free-running threads released from a barrier under "
         "ThreadSanitizer, formats cycling through every data source, file and stdout outputs, with and without a filter chain of differently named filters; (c) the same call sequences single-threaded in the "
-        "non-thread-safe build; (d) free-running threads writing 4..8 KiB records to stdout/stderr connected to a pipe (one page, or 64 KiB) whose reader starts late and reads slowly. non-trivial (a) = schedule whose executed trace interleaves two calls inside the library; "
+        "non-thread-safe build; (d) free-running threads writing 4..30 KiB records to stdout/stderr connected to a pipe (one page, or 64 KiB) whose reader starts late and reads slowly. non-trivial (a) = schedule whose executed trace interleaves two calls inside the library; "
         "for 2x1 shapes also every directed pair 'thread 0 preempted at one of its close() calls x thread 1 handing back at a point where it owns a descriptor' (one shape with a record too large to send in thread 0); "
         "the process-wide state (umask set to 0002/0000, descriptor table, signal dispositions and mask, cwd, environment) is compared before the threads start and after all calls returned; "
         "distinct by the executed lock/unlock interleaving string")
@@ -442,8 +442,8 @@ def main():
     if v and len(ctx.violations) < 5:
         ctx.violation({"stress": True}, v["observed"], None, v["what"])
     # (d) stdout / stderr into a slowly read pipe, records above PIPE_BUF
-    for okind, nt, nc, size in ([("stderr", 6, 4, 6000), ("stdout", 6, 4, 7000)] if ctx.quick else
-                                [("stderr", 6, 4, 6000), ("stdout", 6, 4, 7000), ("stderr", 16, 6, 5000), ("stderr", 4, 10, 8000), ("stdout", 16, 6, 4200)]):
+    for okind, nt, nc, size in ([("stderr", 6, 4, 12000), ("stderr", 6, 4, 6000), ("stdout", 6, 4, 9000)] if ctx.quick else
+                                [("stderr", 6, 4, 12000), ("stderr", 6, 4, 6000), ("stdout", 6, 4, 9000), ("stderr", 16, 6, 5000), ("stderr", 4, 10, 30000), ("stdout", 16, 6, 4200)]):
         v = slow_reader(ctx, builds, okind, nt, nc, size, 400, 4096 if size != 5000 else 65536)
         if v and len(ctx.violations) < 5:
             ctx.violation(v["case"], v["observed"], None, v["what"])
